@@ -207,6 +207,8 @@ func (i *IfUnless) getBackupContext(
 	i.hasAnd = false
 	i.excludedBefore = narrowTsBefore
 
+	ctx.IsConditionScan = true
+
 	zaoriks, err := i.scanCondition(e, p, ctx)
 
 	if i.conditionType == "if" && i.hasAnd && i.conjunctCount > 1 {
